@@ -21,7 +21,7 @@ CHECKS.update({
           'user alphabet and the legacy codec. Frame shape (START..STOP, no inner marker, <= 2n+4) and buffer safety are obligations on exact-size objects. '
           'The self-sizing encoders are checked against the callee contract at the call site.',
   'ref': 'C04', 'technique': 'CBMC loop contracts with ghost co-simulation of the receiver inside the real encoder loop; callee contracts; cxx2c-extracted C++',
-  'note': 'Quick tier: receiver = reference automaton (spec/gstuff_ref.h, gstuff_v1_ref.h) which the real receivers refine step by step (C05 units); the '
+  'note': 'Bounded stand-in on the REAL C++ code: units/C04/native/vector_encoders_probe.cpp runs the vector-returning encoders and the real receiver on 40280 payloads (both alphabets, lengths 0..140, one and two iovec pieces) under ASan/UBSan in every check. Quick tier: receiver = reference automaton (spec/gstuff_ref.h, gstuff_v1_ref.h) which the real receivers refine step by step (C05 units); the '
           'stream-level simulation induction is a meta-argument. Thorough tier: the real legacy receiver / its proved contract is co-simulated directly, and '
           'scatter-gather partitions into <= 3 pieces are covered (a symbolic-size iovec array exhausts cbmc). Trusted: cbmc, injector, cxx2c rules, std::vector stub.'},
  'C05': {
@@ -44,7 +44,7 @@ CHECKS.update({
           'unplanned stimer never fires. For unbounded timer counts the ordering clauses are not decided (sortedness of an unbounded intrusive list is not expressible in CBMC '
           'contracts); std::find_if + lambda is mapped by an extraction rule onto the first-match loop over the intrusive iterator, virtual execute() onto a recording callback.',
   'ref': 'C16', 'technique': 'CBMC full-domain assertions on the real (cxx2c-extracted) arithmetic; no loops',
-  'note': 'Assumes times/intervals within +-2^61 (signed overflow is undefined in C and flagged outside that range). See units/C16/PROPERTY.json for the clauses not under contract.'},
+  'note': 'Bounded stand-in on the REAL class: units/C16/native/manager_sched_probe.cpp runs igris::timer_manager against a reference scheduler over 480000 histories (3 timers, 4 operations) under ASan/UBSan in every check. Assumes times/intervals within +-2^61 (signed overflow is undefined in C and flagged outside that range). See units/C16/PROPERTY.json for the clauses not under contract.'},
  'C17': {
   'text': 'Every CRC routine is proved equal to an independent bit-serial reference for every seed, content and length: the length loop is co-simulated with '
           'the reference fold through injected loop invariants, the per-byte (per-word) step is discharged for all (state, data) pairs, the 8-round bit loops '
@@ -93,7 +93,7 @@ CHECKS.update({
           'reference (every 6-bit group via a ghost index, padding, length 4*ceil(n/3), no read outside the input); base64_decode equals the reference decoder on the longest alphabet '
           'prefix; the reference pair is proved inverse for every length.',
   'ref': 'C18', 'technique': 'CBMC full-domain assertions and loop contracts; cxx2c extraction with a std::string stub; RFC 4648 reference co-simulation',
-  'note': 'The base64 round trip for every length rests on four proved pieces plus a first-order composition step; the real encoder∘decoder composition and the url-safe decoder are '
+  'note': 'Bounded stand-in on the REAL C++ code: units/C18/native/string_codecs_probe.cpp runs the std::string base64 / url-safe base64 / hexascii codecs against RFC 4648 reference encoders on 2801 inputs under ASan/UBSan in every check. The base64 round trip for every length rests on four proved pieces plus a first-order composition step; the real encoder∘decoder composition and the url-safe decoder are '
           'bounded stand-ins (<= 7 bytes / <= 8 characters), labelled bounded. Trusted: std::string stub (libstdc++), cxx2c rules.'},
 })
 CHECKS.update({
@@ -133,7 +133,7 @@ CHECKS.update({
           'operation re-establishes the invariant, returns a block inside the arena that overlaps no live block and no free chunk, leaves live contents untouched, keeps free count == capacity - '
           'live, and freeing everything returns the break to its start; realloc keeps the common prefix.',
   'ref': 'C10', 'technique': 'CBMC inductive-step proofs over symbolic free-list states (bounded capacity), loop contract for pool_engage; cxx2c-extracted igris::pool / static_object_pool / lin_malloc',
-  'note': 'The free list is an inductive structure and CBMC has no inductive predicates: capacity / chunk count are bounded (stated in each unit). Open known finding: malloc never fails (no heap '
+  'note': 'Layout of static_object_pool cells (size/alignment for T and for the free-list link) is a compile-time probe over the real header at five sample element types (bounded stand-in). The free list is an inductive structure and CBMC has no inductive predicates: capacity / chunk count are bounded (stated in each unit). Open known finding: malloc never fails (no heap '
           'end in this port): "inside the arena" holds only for requests that fit. Locks dropped (single-threaded semantics).'},
 })
 CHECKS.update({
@@ -144,7 +144,7 @@ CHECKS.update({
           'protocol (nothing is assigned to, moved from or read while unconstructed or destroyed; every element destroyed exactly once: a released block holds no live element and no block is '
           'leaked), all accesses inside exact-size blocks. Loops are closed by injected invariants; obligations are grouped bounds / lifetime / value / frame.',
   'ref': 'C02', 'technique': 'cxx2c extraction + CBMC loop contracts; ghost element-lifetime protocol checked at an arbitrary tracked slot per block; allocator and std algorithm stubs with ISO contracts',
-  'note': 'NOT claimed: flat_map / flat_set / compat std map/set (std::find_if/upper_bound with capturing lambdas over std::vector<std::pair>: outside the extractor) and the second igris::vector '
+  'note': 'Bounded stand-in on the REAL class (not the extraction): units/C02/native/vector_model_probe.cpp runs igris::vector<T> against std::vector with a lifetime-tracking T under ASan/UBSan in every check (1050 state x operation pairs) - it decides changes that leave the extractor dialect. NOT claimed: flat_map / flat_set / compat std map/set (std::find_if/upper_bound with capturing lambdas over std::vector<std::pair>: outside the extractor) and the second igris::vector '
           'copy in std_portable.h. insert(pos,first,last) is a bounded stand-in (<= 1 element quick, 2 thorough) on top of the proved insert(pos,value); rbegin/rend are std::reverse_iterator '
           '(trusted). Trusted: libstdc++ algorithm / allocator stubs (spec/c02_std_algo.h), cxx2c rules. Exceptions are outside the model (throw -> ghost flag).'},
 })
